@@ -8,7 +8,8 @@ from vlib.runner import derive_seed
 
 PROPERTY = "C07"
 LEVEL = "exploration"
-BOUNDS = {"quick": dict(depth=10, sends=3, breaks=2, kinds=["eof"]), "thorough": dict(depth=13, sends=3, breaks=3, kinds=["eof", "reset", "oserror", "drain"])}
+BOUNDS = {"quick": dict(depth=10, sends=3, breaks=2, kinds=["eof"], logout=False),
+          "thorough": dict(depth=12, sends=3, breaks=3, kinds=["eof", "reset", "oserror", "drain"], logout=True)}
 WALK = {"quick": 60, "thorough": 200}
 
 
@@ -19,7 +20,7 @@ def RULE(tier):
         "on_connect, each with its own journal) joined by a simulated link whose frames are delivered one at a time by the "
         "harness. Actions: application send on either side (unique payload; accepted iff send_msg returns), deliver the next "
         "in-flight frame in either direction (or all in-flight frames of one direction coalesced into one read), break the connection (everything in flight lost; each end sees EOF / "
-        "ConnectionResetError on read / OSError on read / a failing drain), reconnect (real connect() / _handle_accept() over "
+        "ConnectionResetError on read / OSError on read / a failing drain), end the connection gracefully from either side (public disconnect() with a Logout; counted against the break budget; in walks, fixed sequences and the thorough DFS), reconnect (real connect() / _handle_accept() over "
         f"fresh streams + Logon), and (walks and fixed sequences only) a keep-alive probe (TestRequest, answered by the peer's Heartbeat) and arming a side's on_message to raise once after it recorded the message. Bounded-exhaustive DFS over all action sequences up to depth {b['depth']} with <= {b['sends']} sends "
         f"and <= {b['breaks']} breaks of kinds {b['kinds']} (each sequence re-executed from scratch, deduplicated by a hash of both "
         f"state enums, the four counters, both journals, FIFO contents and delivery counts), plus Hypothesis walks up to {WALK[tier]} "
@@ -52,6 +53,10 @@ def enabled(d, budget):
     if d.link_alive() and budget["breaks"] > 0:
         for k in budget["kinds"]:
             acts.append(("break", k))
+        # a graceful end (disconnect() with a Logout) also ends the connection; frames in flight TO the leaving side are lost
+        for side in ("c", "s"):
+            if budget.get("logout", True) and d.ep[side].connection_state.name in ("ACTIVE", "RESENDREQ_AWAITING", "RESENDREQ_HANDLING"):
+                acts.append(("logout", side))
     if d.can_reconnect():
         acts.append(("reconnect",))
     return acts
@@ -73,6 +78,11 @@ def apply(d, a, flags):
             flags.add("break-with-frames-in-flight")
         flags.add(f"break-{a[1]}")
         d.brk(a[1])
+    elif a[0] == "logout":
+        if d.fifo(d.other(a[1])) and (d.accepted["c"] or d.accepted["s"]):
+            flags.add("break-with-frames-in-flight")
+        d.logout(a[1])
+        flags.add("graceful-logout")
     elif a[0] == "reconnect":
         d.reconnect()
         flags.add("reconnect")
@@ -165,7 +175,7 @@ def dfs(acc, tier, first, parts):
                 apply(d, a, flags)
             sig = d.sig()
             key = (sig, sends, breaks)
-            acts = enabled(d, {"sends": sends, "breaks": breaks, "kinds": b["kinds"]}) if depth > 0 else []
+            acts = enabled(d, {"sends": sends, "breaks": breaks, "kinds": b["kinds"], "logout": b["logout"]}) if depth > 0 else []
         finally:
             d.close()
         best = seen_depth.get(key, -1)
@@ -196,6 +206,8 @@ def run_walk(acc, steps):
             acts = enabled(d, {"sends": 99, "breaks": 99, "kinds": [kind]})
             # bias: a break is often followed by reconnect; deliveries are frequent
             cat = ["send", "deliver", "deliver_all", "break", "reconnect", "send", "deliver", "any"][choice % 8]
+            if cat == "break" and choice % 3 == 0:
+                cat = "logout"
             if choice % 41 == 0:
                 acts = [("arm", "c"), ("arm", "s")]
             elif choice % 37 == 0:
@@ -226,6 +238,11 @@ FIXED = [
     [("send", "s"), ("arm", "c"), ("deliver", "s"), ("send", "s"), ("break", "eof"), ("reconnect",), ("arm", "c"), ("send", "s")],
     [("arm", "s"), ("send", "c"), ("send", "c"), ("deliver_all", "c"), ("send", "c"), ("deliver", "c")],
     [("send", "c"), ("testreq", "s"), ("send", "c"), ("break", "eof"), ("reconnect",), ("testreq", "c"), ("send", "s")],
+    # messages lost by a break; the next connection is ended gracefully while the gap is still open
+    [("send", "s"), ("deliver", "s"), ("send", "s"), ("send", "s"), ("break", "eof"), ("reconnect",), ("deliver", "c"), ("deliver", "s"), ("logout", "s"), ("deliver_all", "s"),
+     ("reconnect",), ("send", "s")],
+    [("send", "c"), ("send", "c"), ("break", "eof"), ("reconnect",), ("deliver", "c"), ("logout", "c"), ("deliver", "c"), ("reconnect",), ("send", "c"), ("send", "s")],
+    [("send", "c"), ("send", "s"), ("logout", "c"), ("reconnect",), ("send", "c"), ("logout", "s"), ("reconnect",)],
 ]
 
 
@@ -241,6 +258,8 @@ def fixed(acc):
                 if a[0] == "deliver_all" and len(d.fifo(a[1])) < 2:
                     a = ("deliver", a[1])
                 if a[0] == "reconnect" and not d.can_reconnect():
+                    continue
+                if a[0] == "logout" and not (d.link_alive() and d.connected(a[1])):
                     continue
                 eff.append(a)
                 apply(d, a, set())
